@@ -70,9 +70,27 @@ def random_value_uids(items):
 
 
 # ---------------------------------------------------------------- item pools over the std store
+_pool_cache = {}
+
+
 def pool_items(idx, v, who="alice"):
     """(label, item) list of deterministic-response items over the standard template store:
-    succeeding and failing operations of every kind."""
+    succeeding and failing operations of every kind.  Items the library cannot encode under
+    version v (e.g. a custom attribute under KMIP 2.0) are left out."""
+    key = (tuple(v), who, tuple(sorted((str(k), str(u)) for k, u in idx.items())))
+    if key not in _pool_cache:
+        out = []
+        for label, item in _pool_items(idx, v, who):
+            try:
+                H.encode_request({"v": list(v), "items": [item]})
+            except Exception:
+                continue
+            out.append((label, item))
+        _pool_cache[key] = out
+    return [(l, copy.deepcopy(i)) for l, i in _pool_cache[key]]
+
+
+def _pool_items(idx, v, who="alice"):
     sk_act = idx["SymmetricKey/ACTIVE"]
     sk_pre = idx["SymmetricKey/PRE_ACTIVE"]
     priv = idx["PrivateKey/ACTIVE"]
